@@ -451,3 +451,52 @@ func constFieldOfStructArg(v ssa.Value, name string) (int64, bool) {
 	}
 	return val, set
 }
+
+// snapshotPathAgreementRule: the file the maintenance loop writes is the file New loads at the next start.  In
+// App.setup, for the silences and for the notification log, the path handed to Maintenance equals the SnapshotFile
+// option handed to New; New opens exactly that option; the maintenance loop runs in a goroutine of its own.
+func snapshotPathAgreementRule(o *Ob) {
+	e := o.E
+	setup := o.Fn("(*am/app.App).setup")
+	unfree := func(s string) string { return strings.ReplaceAll(s, "^", "") }
+	for _, sp := range snapPkgs {
+		sts := e.StoresToField(setup, sp.pkg+".Options", "SnapshotFile")
+		if !o.Check(len(sts) == 1, "option|"+sp.pkg, "setup must set "+sp.pkg+".Options.SnapshotFile exactly once", fnFirst(setup)) {
+			continue
+		}
+		path := unfree(e.X(setup, sts[0].Val))
+		o.Site(sts[0], sp.pkg+": snapshot file "+path)
+		var mcall ssa.CallInstruction
+		for _, g := range e.GoSites(setup) {
+			if g.Fn == nil {
+				continue
+			}
+			fns := []*ssa.Function{g.Fn}
+			for _, f := range fns {
+				if fnName(f) == sp.recvT+".Maintenance" {
+					mcall = g.Instr
+				}
+				for _, c := range e.Calls(f, sp.recvT+".Maintenance") {
+					mcall = c
+				}
+			}
+		}
+		if !o.Check(mcall != nil, "maintenance|"+sp.pkg, "the maintenance loop of "+sp.pkg+" is not started in a goroutine of its own", sts[0]) {
+			continue
+		}
+		o.Site(mcall, sp.pkg+": maintenance loop")
+		o.Check(unfree(e.Arg(mcall, 2)) == path, "path|"+sp.pkg, "the maintenance loop writes "+unfree(e.Arg(mcall, 2))+" but the next start loads "+path, mcall)
+		o.Check(strings.HasPrefix(unfree(e.Arg(mcall, 0)), sp.pkg+".New("), "object|"+sp.pkg, "the maintenance loop must snapshot the object built by "+sp.pkg+".New", mcall)
+		nw := o.Fn(sp.pkg + ".New")
+		for _, op := range e.Calls(nw, "os.Open") {
+			o.Check(strings.HasSuffix(e.Arg(op, 0), "Options.SnapshotFile") || e.Arg(op, 0) == "p0.SnapshotFile", "load-path|"+sp.pkg, "New must load the configured snapshot file, opens "+e.Arg(op, 0), op)
+		}
+	}
+}
+
+func init() {
+	reg("C11", "C11.9", "T9,T11", "what is written is what is loaded: the path of the maintenance loop equals Options.SnapshotFile for silences and notification log; New opens that option; the loop runs in its own goroutine", func(o *Ob) {
+		snapshotPathAgreementRule(o)
+		o.MinSites(4)
+	})
+}
